@@ -56,8 +56,16 @@ func dcGenFor(prop string) func(seed uint64, idx, total int, tier string) any {
 			var ops []dcOp
 			peer := r.Intn(2)
 			n := r.Range(1, 4)
+			if prop == "C19" && r.Bool(0.5) {
+				// message-heavy variant: one channel early, then sends and setter calls
+				n = r.Range(3, 7)
+			}
 			for i := 0; i < n; i++ {
-				switch x := r.Intn(20); {
+				x := r.Intn(20)
+				if prop == "C19" && n > 4 && nch > 0 && x < 8 {
+					x = 13 + r.Intn(5) // send or poke instead of yet another channel
+				}
+				switch {
 				case x < 8 || nch == 0:
 					op := dcOp{Kind: "create", Peer: peer, Ch: nch}
 					if prop == "C18" && r.Bool(0.3) {
@@ -75,6 +83,8 @@ func dcGenFor(prop string) func(seed uint64, idx, total int, tier string) any {
 					ops = append(ops, dcOp{Kind: "rclose", Ch: r.Intn(nch), Graceful: r.Bool(0.2)})
 				case x < 15:
 					ops = append(ops, dcOp{Kind: "send", Ch: r.Intn(nch)})
+				case x < 18 && prop == "C19":
+					ops = append(ops, dcOp{Kind: "poke", Ch: r.Intn(nch)})
 				case x < 16 && prop == "C20":
 					ops = append(ops, dcOp{Kind: "pcclose", Peer: r.Intn(2), Graceful: r.Bool(0.3)})
 				default:
@@ -88,20 +98,23 @@ func dcGenFor(prop string) func(seed uint64, idx, total int, tier string) any {
 }
 
 type dcObj struct {
-	label    string
-	side     string // "local" (created through CreateDataChannel) or "remote" (announced)
-	peer     int
-	d        *DataChannel
-	states   []DataChannelState // distinct consecutive sampled states
-	ids      []int              // distinct consecutive sampled ids (-1 = nil)
-	idAt     int                // sampler tick at which the id was first seen
-	opens    int
-	closes   int
-	explicit bool
-	invAt    int  // sampler tick at which CreateDataChannel was invoked (local channels)
-	claimAt  int  // sampler tick by which the id was certainly registered with the transport: CreateDataChannel returned (local) / OnDataChannel fired (remote)
-	nilAt    int  // last sampler tick at which the object was seen without an id
-	closeRet bool // a Close()/GracefulClose() on this object returned
+	label     string
+	side      string // "local" (created through CreateDataChannel) or "remote" (announced)
+	peer      int
+	d         *DataChannel
+	states    []DataChannelState // distinct consecutive sampled states
+	ids       []int              // distinct consecutive sampled ids (-1 = nil)
+	idAt      int                // sampler tick at which the id was first seen
+	opens     int
+	closes    int
+	explicit  bool
+	sentMaybe []string
+	sentOK    []string // C19: payloads Send accepted while the channel was open before and after the call
+	got       []string // C19: payloads the OnMessage handler of this (remote) object was given
+	invAt     int      // sampler tick at which CreateDataChannel was invoked (local channels)
+	claimAt   int      // sampler tick by which the id was certainly registered with the transport: CreateDataChannel returned (local) / OnDataChannel fired (remote)
+	nilAt     int      // last sampler tick at which the object was seen without an id
+	closeRet  bool     // a Close()/GracefulClose() on this object returned
 }
 
 var dcRank = map[DataChannelState]int{DataChannelStateConnecting: 1, DataChannelStateOpen: 2, DataChannelStateClosing: 3, DataChannelStateClosed: 4}
@@ -173,6 +186,17 @@ func dcRunFor(prop string) func(t *testing.T, cj []byte, res *vfResult) {
 					remote[fmt.Sprintf("%d/%s", pi, o.label)] = o // (no instrumented call while holding the harness mutex)
 					mu.Unlock()
 					track(o)
+					if prop == "C19" {
+						d.OnMessage(func(m DataChannelMessage) {
+							// an echo-style handler: looks at the channel it was called for
+							_ = d.Label()
+							_ = d.ReadyState()
+							_ = d.BufferedAmount()
+							mu.Lock()
+							o.got = append(o.got, string(m.Data))
+							mu.Unlock()
+						})
+					}
 				})
 			}
 			off, ans := pa, pb
@@ -246,7 +270,7 @@ func dcRunFor(prop string) func(t *testing.T, cj []byte, res *vfResult) {
 			for ti, ops := range c.Tasks {
 				ti, ops := ti, ops
 				s.Go(fmt.Sprintf("t%d", ti), func() {
-					for _, op := range ops {
+					for oi, op := range ops {
 						simrt.Yield("harness:op:1")
 						switch op.Kind {
 						case "create":
@@ -326,14 +350,36 @@ func dcRunFor(prop string) func(t *testing.T, cj []byte, res *vfResult) {
 								continue
 							}
 							st := o.d.ReadyState()
-							err := o.d.Send([]byte("x"))
+							payload := fmt.Sprintf("m-t%d-%d", ti, oi)
+							err := o.d.Send([]byte(payload))
 							st2 := o.d.ReadyState()
+							if err == nil {
+								mu.Lock()
+								if st == DataChannelStateOpen && st2 == DataChannelStateOpen {
+									o.sentOK = append(o.sentOK, payload)
+								} else {
+									o.sentMaybe = append(o.sentMaybe, payload) // accepted around the open transition
+								}
+								mu.Unlock()
+							}
 							if err == nil && st != DataChannelStateOpen && st2 != DataChannelStateOpen {
 								mu.Lock()
 								sendNotOpenOK = false
 								sendDetail = fmt.Sprintf("Send on %s returned nil, readyState was %s before and %s after the call", o.label, st, st2)
 								mu.Unlock()
 							}
+						case "poke":
+							// setters that take the channel's lock for writing, on the receiving object
+							lo := waitObj(func() *dcObj { return chans[op.Ch] })
+							if lo == nil || lo.explicit {
+								continue
+							}
+							o := waitObj(func() *dcObj { return remote[fmt.Sprintf("%d/%s", 1-lo.peer, lo.label)] })
+							if o == nil {
+								continue
+							}
+							o.d.SetBufferedAmountLowThreshold(uint64(1000 + oi))
+							o.d.OnBufferedAmountLow(func() {})
 						case "pcclose":
 							if op.Peer < 0 || op.Peer > 1 {
 								continue
@@ -423,6 +469,58 @@ func dcRunFor(prop string) func(t *testing.T, cj []byte, res *vfResult) {
 			sig = append(sig, fmt.Sprintf("%d@%s", st.Task, st.Site))
 		}
 		res.Sig = vfSig(sig)
+		if prop == "C19" {
+			// what Send accepted on an open channel reaches the other side's handler, once, in order
+			// (judged also when a task never returned: by then nothing has moved for 0.9 s of fake time)
+			for _, o := range objs {
+				if o.side != "local" || o.explicit || len(o.sentOK) == 0 || pcClosed[0] || pcClosed[1] {
+					continue
+				}
+				ro := remote[fmt.Sprintf("%d/%s", 1-o.peer, o.label)]
+				var got []string
+				if ro != nil {
+					got = ro.got
+				}
+				// several tasks may send on one channel at once: the order between their messages is
+				// not defined, the order of each task's own messages is
+				bad := ""
+				seen := map[string]int{}
+				lastOf := map[string]int{}
+				for _, g := range got {
+					seen[g]++
+					f := strings.Split(g, "-") // m-t<task>-<op index>
+					if len(f) == 3 {
+						n := 0
+						fmt.Sscanf(f[2], "%d", &n)
+						if prev, ok := lastOf[f[1]]; ok && n < prev {
+							bad = "order of one sender's messages changed"
+						}
+						lastOf[f[1]] = n
+					}
+				}
+				allowed := map[string]bool{}
+				for _, m := range o.sentOK {
+					allowed[m] = true
+					if seen[m] == 0 {
+						bad = "accepted message " + m + " never delivered"
+					}
+				}
+				for _, m := range o.sentMaybe {
+					allowed[m] = true
+				}
+				for g, n := range seen {
+					if n > 1 {
+						bad = "message " + g + " delivered more than once"
+					}
+					if !allowed[g] {
+						bad = "delivered message " + g + " was never accepted by Send"
+					}
+				}
+				if bad != "" {
+					res.violate("accepted-message-not-delivered-in-order-exactly-once", fmt.Sprintf("%s (peer %d): %s; Send accepted %v (+%v around the open transition), the other side's handler was given %v (scheduler outcome %s; unfinished: %s)", o.label, o.peer, bad, o.sentOK, o.sentMaybe, got, outcome, strings.Join(unfinished, "; ")))
+				}
+			}
+		}
 		if outcome != "done" {
 			// A task that does not return here is a GracefulClose waiting for the remote side to reset a
 			// stream the remote never learned about (closed before the open message was delivered) —
